@@ -416,6 +416,42 @@ static void register_scaled(bool thorough) {
                    });
 }
 
+// ------------------------------------------------------------------ (A'') general Bezier: S-bends and gentle starts
+// Degree 4, 5 and 6 control polygons (Curve::bezier's general sampler): the first half is placed on
+// a small lattice with the leading control points exactly or nearly collinear (offsets 0, 1e-6,
+// 1e-3, 1e-2, 1e-1 from the line), the second half is its point reflection about the centre
+// (S-bend) or a 0.7x shrunk reflection (uneven ends); coarse and fine tolerances.
+static void register_sbends() {
+    static const double AA[3] = {0.5, 0.7, 1.0}, DD[2] = {0.5, 0.7}, EPS[5] = {0, 1e-6, 1e-3, 1e-2, 1e-1}, SH[2] = {1, 0.7};
+    static const Vec2 WH[3] = {{3, 1}, {2.5, 2}, {4, 1}};
+    static const Vec2 ORG[2] = {{0, 0}, {10, -5}};
+    static const double TL[5] = {1e-1, 1e-2, 5e-3, 1e-3, 1e-4};
+    static const char* TLS[5] = {"1e-1", "1e-2", "5e-3", "1e-3", "1e-4"};
+    add_single_sub("bezier_sbend", "bezier of degree 4,5,6: first half a{0.5,0.7,1} x step{0.5,0.7} with offsets {0,1e-6,1e-3,1e-2,1e-1} from the start tangent, second half = point reflection (S-bend) or 0.7x reflection, end (3,1),(2.5,2),(4,1); origin {(0,0),(10,-5)} x relative x tolerance {1e-1,1e-2,5e-3,1e-3,1e-4}",
+                   {5, 2, 2, 3, 3, 2, 5, 3, 2}, 60,
+                   [](const std::vector<int>& d, SingleCase& sc) {
+                       // d: tol, origin, rel, degree, a, step, eps, WH, shrink
+                       int deg = 4 + d[3];
+                       double a = AA[d[4]], st = DD[d[5]], e = EPS[d[6]], sh = SH[d[8]];
+                       Vec2 E = WH[d[7]];
+                       std::vector<Vec2> h = {Vec2{0, 0}, Vec2{a, e / 2}, Vec2{a + st, e}};   // first half, relative to P0
+                       std::vector<Vec2> c(deg + 1);
+                       int half = deg / 2;          // deg 4: P0,P1 | P2 centre | P3,P4 ; deg 5: P0..P2 | P3..P5 ; deg 6: P0..P2 | P3 centre | P4..P6
+                       int nh = deg == 4 ? 2 : 3;   // points taken from h (including P0)
+                       if (deg == 4) h[1] = Vec2{a, e};
+                       for (int i = 0; i < nh; i++) { c[i] = h[i]; c[deg - i] = E - h[i] * sh; }
+                       if (deg % 2 == 0) c[half] = (c[half - 1] + c[half + 1]) * 0.5;
+                       Vec2 o = ORG[d[1]];
+                       sc.start = o;
+                       sc.spec.kind = BEZ;
+                       sc.spec.rel = d[2];
+                       for (int i = 1; i <= deg; i++) sc.spec.pts.push_back(sc.spec.rel ? c[i] : c[i] + o);
+                       sc.tol_abs = TL[d[0]];
+                       sc.tol_label = TLS[d[0]];
+                       return true;
+                   });
+}
+
 // ------------------------------------------------------------------ (B) histories
 static std::vector<Spec> OPS;
 static void init_ops() {
@@ -651,6 +687,7 @@ int main(int argc, char** argv) {
     register_histories(run.thorough());
     register_array_pairs();
     register_scaled(run.thorough());
+    register_sbends();
     std::stable_sort(SUBS.begin(), SUBS.end(), [](const Sub& a, const Sub& b) { return a.n < b.n; });
 
     if (run.replaying()) {
